@@ -15,7 +15,7 @@ EXPLANATION = (
     "Decides: (1) ranking – the list handed to Ap._calculate_tp_fp is ordered by one stable sort whose key is the estimate's "
     "confidence, descending, with no later reordering; (2) TP/FP marking – per ranked result exactly one of `tp_list[i] = weight` / "
     "`fp_list[i] = 1.0` (or the skip for labels without a threshold), TP iff is_result_correct with the threshold looked up by the ground "
-    "truth's label, both lists cumulated with np.cumsum; (3) formulas – precision_i = tp_i/(i+1), recall_i = tp_i/num_gt (0 without "
+    "truth's label (a mark stored on a path that never asked is_result_correct is reported), both lists cumulated with np.cumsum; (3) formulas – precision_i = tp_i/(i+1), recall_i = tp_i/num_gt (0 without "
     "ground truth), AP = sum p_i (r_i - r_{i+1}) over consecutive envelope points, AP = inf without results, mAP/mAPH = mean over the "
     "finite APs; (4) TP weights lie in [0,1] (constant 1 or an expression clamped by min(1, max(0, .))), hence APH <= AP, the heading "
     "weight is 1 - d/pi; (5) Map aligns labels, thresholds, result buckets and ground-truth counts, and AP and APH of a label receive "
